@@ -12,3 +12,16 @@ LEVEL_TEXT = EXPLANATION + ' Sub-matchers still under assumed contracts are list
 TIMEOUT_MS = {'quick': 20000, 'thorough': 120000}
 MUSTFAIL_PER_FN = {'quick': 1, 'thorough': 6}
 BOUNDED = [hub_bounded('C01-hub-contract', ALL_HTML + ALL_XML + ['svg5', 'small', 'api'], ['core'])]
+
+
+def _bt_attr_ops(ctx):
+    from pyvc import bounded_text
+    return bounded_text.attr_ops(ctx)
+
+
+def _bt_laws(ctx):
+    from pyvc import bounded_text
+    return bounded_text.text_level_laws(ctx)
+
+
+BOUNDED = BOUNDED + [_bt_attr_ops, _bt_laws]
